@@ -480,6 +480,7 @@ func c11Execute(c *core.Ctx, sc *C11Scenario, sh gen.Shape, data, pre gen.Data, 
 	o := &c11Output{bytes: sink.Bytes(), meta: map[int]map[chunkMeta]bool{}}
 	nonNull := map[[2]int]int{}
 	hasBounds := map[[2]int]bool{}
+	needsBounds := map[[2]int]bool{} // the chunk holds a value whose bound is not the empty string
 	o.copied = parquet.VerifCopyPathCount() - c0
 	o.reenc = parquet.VerifReencodePathCount() - r0
 
@@ -522,6 +523,9 @@ func c11Execute(c *core.Ctx, sc *C11Scenario, sh gen.Shape, data, pre gen.Data, 
 			for _, val := range columnValues(rows, ci) {
 				if !val.IsNull() {
 					nonNull[[2]int{gi, ci}]++
+					if len(val.Bytes()) > 0 {
+						needsBounds[[2]int{gi, ci}] = true
+					}
 				}
 			}
 			if bf := cc.BloomFilter(); bf != nil {
@@ -620,7 +624,7 @@ func c11Execute(c *core.Ctx, sc *C11Scenario, sh gen.Shape, data, pre gen.Data, 
 				}
 			}
 			cm := chunkMeta{Codec: m.Codec.String(), Encodings: setString(encs), PageTypes: setString(ptypes[[2]int{gi, ci}]),
-				Bloom: m.BloomFilterOffset != 0, BloomKind: bloomHeaderKind(o.bytes, m.BloomFilterOffset), Bounds: hasBounds[[2]int{gi, ci}], ColIndex: col.ColumnIndexOffset != 0, OffIndex: col.OffsetIndexOffset != 0}
+				Bloom: m.BloomFilterOffset != 0, BloomKind: bloomHeaderKind(o.bytes, m.BloomFilterOffset), Bounds: hasBounds[[2]int{gi, ci}] || !needsBounds[[2]int{gi, ci}], ColIndex: col.ColumnIndexOffset != 0, OffIndex: col.OffsetIndexOffset != 0}
 			if o.meta[ci] == nil {
 				o.meta[ci] = map[chunkMeta]bool{}
 			}
